@@ -171,6 +171,27 @@ func (e *env) laterInst(rng *rand.Rand, old *inst) (*inst, error) {
 	return nil, fmt.Errorf("unknown type %s", old.typ)
 }
 
+// trackedTM is an upgrade to a height the client already tracks (it got there by an update): the same counterparty, the
+// consensus state of its latest height, the old fact proven at that height.
+func (e *env) trackedTM(rng *rand.Rand, old *inst) (*inst, error) {
+	p := e.p
+	h := old.tmLatest
+	height := clienttypes.NewHeight(p.Revision(), uint64(h))
+	hdr, err := p.SignedHeader(h, height)
+	if err != nil {
+		return nil, err
+	}
+	delay := []uint64{uint64(time.Second), uint64(4 * time.Second), uint64(time.Hour)}[rng.Intn(3)]
+	cs := xtm.NewClientState(p.ChainID, xtm.DefaultTrustLevel, 14*24*time.Hour, 21*24*time.Hour, 10*time.Second, height,
+		commitmenttypes.GetSDKSpecs(), commitmenttypes.MerklePrefix{KeyPrefix: []byte(host.StoreKey)}, delay)
+	key := host.PacketCommitmentKey(old.src, old.dst, old.seq)
+	proof, _, err := e.w.Proof(p, key, h)
+	if err != nil {
+		return nil, err
+	}
+	return &inst{typ: tTM, cs: cs, cons: hdr.ConsensusState(), installed: height, src: old.src, dst: old.dst, seq: old.seq, commitment: old.commitment, proof: proof, tmLatest: h, tmDelay: delay}, nil
+}
+
 func (e *env) newTM(rng *rand.Rand) (*inst, error) {
 	p := e.p
 	src, dst, seq := e.nextFact()
